@@ -458,3 +458,37 @@ package codegen
 //@ const OpAtomicOr 241
 //@ const OpAtomicXor 242
 //@ const OpAtomicFAddEXT 6035
+
+// ---- StorageBuffer needs its extension below SPIR-V 1.3 (C02) -----------------------------------
+//
+// The StorageBuffer storage class is core from SPIR-V 1.3; a module for an
+// earlier version that declares a variable in it must also declare
+// SPV_KHR_storage_buffer_storage_class.
+//
+//@ func (*Backend).emitGlobals
+//@   mode bv
+//@   tags C02
+//@   ghostcall addExtension extensionAsked name
+//@   at (*Backend).emitPointerType assert [storage-buffer-extension] arg1 == StorageClassStorageBuffer && ((uint32(b.options.Version.Major) << 16) | (uint32(b.options.Version.Minor) << 8)) < 0x00010300 ==> extensionAsked("SPV_KHR_storage_buffer_storage_class")
+
+// ---- scalar types declare the capability their width needs (C02) -------------------------------
+//
+// SPIR-V: OpTypeFloat 16 needs Float16, 64 needs Float64; OpTypeInt 8 / 16 / 64
+// need Int8 / Int16 / Int64. The capability is requested before the type
+// instruction is added; the cache key separates kinds and widths.
+//
+//@ func (*Backend).emitScalarType
+//@   mode bv
+//@   tags C02
+//@   ghostcall addCapability capabilityAsked capability
+//@   at (*ModuleBuilder).AddTypeFloat assert [float-capability] (arg1 == 16 ==> capabilityAsked(CapabilityFloat16)) && (arg1 == 64 ==> capabilityAsked(CapabilityFloat64))
+//@   at (*ModuleBuilder).AddTypeFloat assert [float-width] arg1 == uint32(scalar.Width) * 8
+//@   at (*ModuleBuilder).AddTypeInt assert [int-capability] (arg1 == 8 ==> capabilityAsked(CapabilityInt8)) && (arg1 == 16 ==> capabilityAsked(CapabilityInt16)) && (arg1 == 64 ==> capabilityAsked(CapabilityInt64))
+//@   at (*ModuleBuilder).AddTypeInt assert [int-signedness] arg1 == uint32(scalar.Width) * 8 && (arg2 <==> scalar.Kind == ir.ScalarSint)
+//
+//@ consts C02
+//@ const CapabilityFloat16 9
+//@ const CapabilityFloat64 10
+//@ const CapabilityInt64 11
+//@ const CapabilityInt16 22
+//@ const CapabilityInt8 39
